@@ -11,6 +11,7 @@ PCR operand and its target are not enumerated; they are elements k of an abstrac
         `while not all_sizes_fixed()` loop, C13); size accounting; forward: 8-bit chosen => every final displacement
         between the current and the maximal sizes fits 8 bits (uses the prefix-sum monotonicity lemma, proved by induction)
 """
+import os
 import z3
 
 from specs import mc6809
@@ -48,6 +49,10 @@ class AsmPasses:
         out.append({"id": "fn/determine_pcr_relative_sizes/fwd/all-final-between", "k": "sizes", "dir": "fwd", "case": "final"})
         out.append({"id": "fn/determine_pcr_relative_sizes/bwd", "k": "sizes", "dir": "bwd", "case": "final"})
         out.append({"id": "lemma/prefix-sum-monotone", "k": "pslemma"})
+        # the pre-condition of the forward case (`max_size of an unsized statement covers its final size`) at its source: translate
+        for op in ("T,PCR", "[T,PCR]", "T+1,PCR", "[T-2,PCR]"):
+            for m in ("LDA", "LEAX", "CMPD", "LDY"):
+                out.append({"id": "fn/translate/pcr-max-size/%s/%s" % (m, op), "k": "pcrmax", "mnemonic": m, "operand": op})
         return out
 
     def run(self, env, cell):
@@ -62,6 +67,8 @@ class AsmPasses:
         if k == "pslemma":
             env.ensure("lemma:prefix-sum-monotone", True, ("C03",))
             return
+        if k == "pcrmax":
+            return self.s_pcrmax(env, cell)
         this, target = h.get("this", 0), h.get("target", 0)
         sizes = list(h.get("sizes", []))
         n = max(this, target) + 1
@@ -111,6 +118,10 @@ class AsmPasses:
                 kk = h.get("probe_k", 3)
                 lines = ["T NOP\n", " RMB %d\n" % nfill] + [" LDA N,PCR\n"] * kk + [src, "N NOP\n"]
                 si, ti = kk + 2, 0
+            if h.get("probe_fill") == "pcrfarind":
+                kk = h.get("probe_k", 3)
+                lines = [src] + [" LDD [FAR,PCR]\n"] * kk + [" RMB %d\n" % nfill, "T NOP\n", " RMB 200\n", "FAR NOP\n"]
+                si, ti = 0, kk + 2
             if h.get("probe_fill") == "pcrfar":
                 kk = h.get("probe_k", 3)
                 lines = [src] + [" LEAY FAR,PCR\n"] * kk + [" RMB %d\n" % nfill, "T NOP\n", " RMB 200\n", "FAR NOP\n"]
@@ -150,6 +161,10 @@ class AsmPasses:
                     for cnt in (1, 3, 5):
                         for nfill in range(127 - 4 * cnt - 1, 127 - 3 * cnt + 2):
                             yield {"probe_n": nfill, "probe_dir": direction, "probe_fill": "pcrfar", "probe_k": cnt}
+                    # ... and INDIRECT ones ([FAR,PCR]: their advertised maximum size comes from another translate method)
+                    for cnt in (3, 4, 5):
+                        for nfill in range(127 - 4 * cnt - 1, 127 - 3 * cnt + 2):
+                            yield {"probe_n": nfill, "probe_dir": direction, "probe_fill": "pcrfarind", "probe_k": cnt}
                 if cell["k"] == "sizes" and direction == "bwd":
                     # other PCR references to a NEAR label inside the span (8-bit in the end): the order in which the statements are
                     # sized decides whether this one sees their final or their pessimistic size
@@ -307,6 +322,35 @@ class AsmPasses:
         env.ensure(key + "::post:pcr-target", (val - jump) % w == 0, ("C03", "C01"), internal="contract over an abstract statement list")
 
     # ------------------------------------------------------------------ determine_pcr_relative_sizes
+    def s_pcrmax(self, env, cell):
+        """an unsized label,PCR / [label,PCR] statement advertises as max_size the size of its 16-bit form, and its size is that
+        of the form without offset bytes: what determine_pcr_relative_sizes assumes about the statements between source and target
+        (runs the real translate; the same body serves as native counterpart)"""
+        native = env.mode == "native"
+        m, op = cell["mnemonic"], cell["operand"]
+        sig = lambda w: (lambda: "pcr-max-size:%s:%s:%s" % (m, op, w)) if native else None
+        if native:
+            import sys
+            repo = os.environ.get("VERIF_REPO", "/repo")
+            if repo not in sys.path:
+                sys.path.insert(0, repo)
+            from cocoasm.statement import Statement
+            from cocoasm.values import AddressValue
+            st = Statement(" %s %s\n" % (m, op))
+            st.resolve_symbols({"T": AddressValue(3)})
+            st.translate()
+            size, mx, fixed = st.code_pkg.size, st.code_pkg.max_size, st.fixed_size
+        else:
+            it = env.interp
+            AddressValue = it.get("cocoasm.values", "AddressValue")
+            st = self._statement(env, " %s %s\n" % (m, op), {"T": it.call(AddressValue, [3], {})})
+            pkg = it.getattr_(st, "code_pkg")
+            size, mx, fixed = it.getattr_(pkg, "size"), it.getattr_(pkg, "max_size"), it.getattr_(st, "fixed_size")
+        base = 2 + (1 if mc6809.opcode_of(m, "idx") > 0xFF else 0)          # opcode byte(s) + post byte
+        env.ensure(KEY + "translate::post:pcr-unsized-size", size == base, ("C03", "C02"), sig("size=%s,want=%d" % (size, base)))
+        env.ensure(KEY + "translate::post:pcr-max-size-covers-16-bit-form", mx == base + 2, ("C03", "C01"), sig("max_size=%s,want=%d" % (mx, base + 2)))
+        env.ensure(KEY + "translate::post:pcr-unfixed", not fixed if isinstance(fixed, bool) else Not(env.interp.truth_sym(fixed)), ("C03",), sig("fixed"))
+
     def s_sizes(self, env, cell):
         it = env.interp
         p = cur()
